@@ -13,7 +13,9 @@ precompiled struct.Struct, the generated namedtuple methods; a closed-enum const
 bounded at all is refused, not reported) and additionally replays mutated datagrams, among them every value of each
 header byte; clause b evaluates the two receive functions on well-formed and
 malformed datagrams with recording stand-ins for their collaborators and keeps the CFG form where it is conclusive;
-clause h bounds the receive buffer from below through def-use.
+clause h bounds the receive buffer from below through def-use; clause i evaluates histories of one message object
+(observe, change a field, observe again) against a model of its fields: remembered serialisations that are not dropped on
+every path that changes a field show there and nowhere else.
 """
 
 import ast
@@ -45,8 +47,12 @@ R = Rules(
         "codecs equal the reference value encodings in both directions; (f) the option-number -> format registrations, "
         "obtained by replaying the registration statements, equal the registry table of RFC 7252/7959/7641/7967/8613/9175/8768; "
         "(g) option numbers created on demand keep their identity (path model over _missing_, and evaluated over a history of "
-        "thousands of numbers); (h) the buffer passed to recvmsg() is at least the hand-confirmed 4096 bytes.  Value-level "
-        "equality for all byte strings is not decided."
+        "thousands of numbers); (h) the buffer passed to recvmsg() is at least the hand-confirmed 4096 bytes; "
+        "(i) serialisation is a function of the message's current fields: one message is driven through histories (serialise or "
+        "compare, change a field through a documented path -- message attributes, add_option/delete_option/Options.decode, an "
+        "option object's .value or decode() for every value format, every property of Options that exposes an option, "
+        "Message.copy() -- serialise again) in the evaluator and every serialisation equals the reference encoding of the fields "
+        "it has at that moment.  Value-level equality for all byte strings is not decided."
     ),
     rule_text="escape sets over the resolved call graph; codec functions evaluated over finite domains in the checker's own evaluator and compared with an RFC reference codec",
 )
@@ -1551,6 +1557,344 @@ def h(ctx):
     ctx.floor("recvmsg() call sites that receive datagrams", n, 1)
 
 
+# ---------------------------------------------------------------------------
+# i: serialisation is a function of the message's *current* fields (histories)
+
+HIST_RAWS = (b"\x11", b"\x2a\x05", b"\x33")  # option values that are canonical in every value format of the registry
+
+
+class Step:
+    def __init__(self, label, family, fn):
+        self.label, self.family, self.fn = label, family, fn
+
+
+class Histories:
+    """Necessary condition of C01 decided here: `encode()` maps the fields the message has *when it is called* to the
+    RFC 7252 bytes -- whatever was serialised, compared or copied before, and through whichever documented path a field
+    was changed since.  (Clauses c..e evaluate one serialisation per freshly built object: a serialisation that is
+    remembered somewhere -- in the option set, in the message, in an option object, carried along by copy() -- and not
+    dropped on *every* path that changes a field is invisible to them; a fourth-round breaking change remembered the option
+    bytes in the option set and dropped them in add_option / delete_option only, so an option object's documented
+    `.value` attribute, updated in place, no longer reached the wire.)
+
+    Nothing about *how* such state is kept is matched (no field names, no store/invalidate sites): one object is driven
+    through a history in the checker's evaluator -- observe (encode, or `==`, which serialises too), change a field,
+    observe again -- next to a model of its fields kept here, and every serialisation is compared with the reference
+    encoding of the model.  A behaviour-preserving edit cannot change any of these values; a correct memoisation (one
+    that is validated against, or dropped by, every path) passes.  The paths: the five header/payload attributes of
+    Message; Options.add_option (new and repeated number), delete_option, Options.decode into the same object; for
+    every value format of the registry (and the default format) the option object's `.value` attribute and its
+    decode(); every property of Options that exposes an option (found by evaluation: the getter answers differently
+    once that option is present); Message.copy() with and without overrides, before and after each of the others."""
+
+    def __init__(self, ctx):
+        self.ctx = ctx
+        I = self.I = interp(ctx)
+        self.Message = g_(I, "message", "Message")
+        self.Options = g_(I, "options", "Options")
+        self.Type = g_(I, "numbers.types", "Type")
+        self.Code = g_(I, "numbers.codes", "Code")
+        self.ON = g_(I, "numbers.optionnumbers", "OptionNumber")
+        regs, default = format_table(I)
+        by = {}
+        for name, (num, fmt) in sorted(regs.items(), key=lambda kv: kv[1][0]):
+            by.setdefault(short_name(fmt), num)
+        self.registered = sorted({num for num, _f in regs.values()})
+        probe = 64999
+        while probe in self.registered:
+            probe -= 1
+        by.setdefault(short_name(default) + " (unregistered number)", probe)
+        self.formats = sorted((num, fmt) for fmt, num in by.items())
+        ctx.floor("value formats driven through histories", len(self.formats), 4)
+        # the samples must be canonical in each format, or the model's expectation (the raw value itself) would be wrong
+        for num, fmt in self.formats:
+            for raw in HIST_RAWS:
+                r = K.attempt(I, lambda: bytes(self.call(self.new_option(num, raw), "encode")))
+                ctx.need(r.ok and r.value == raw, "sample option value %s is not canonical for %s (option %d): %s" % (raw.hex(), fmt, num, r.describe()))
+
+    # -- driving the evaluator
+    def call(self, o, meth, *a, **k):
+        return self.I.call(self.I.getattr(o, meth), list(a), k)
+
+    def parse(self, pairs):
+        o = self.I.call(self.Options, [], {})
+        self.call(o, "decode", ref_options(pairs))
+        return o
+
+    def objs(self, o):
+        return list(self.I.iterate(self.call(o, "option_list")))
+
+    def new_option(self, num, raw):
+        """an option object of the format the registry assigns to the number, as the parser creates it"""
+        return self.objs(self.parse([(num, raw)]))[0]
+
+    def build(self):
+        I = self.I
+        opts = [(num, HIST_RAWS[0]) for num, _f in reversed(self.formats)]
+        m = I.call(self.Message, [], {"code": 69, "payload": b"state"})
+        I.setattr(m, "mtype", I.call(self.Type, [1], {}))
+        I.setattr(m, "mid", 0x0101)
+        I.setattr(m, "token", b"\xaa")
+        for num, raw in opts:
+            self.call(I.getattr(m, "opt"), "add_option", self.new_option(num, raw))
+        return {"m": m, "model": {"mtype": 1, "code": 69, "mid": 0x0101, "token": b"\xaa", "payload": b"state", "opts": opts}}
+
+    @staticmethod
+    def want(model):
+        return ref_message(model["mtype"], model["code"], model["mid"], model["token"], ref_options(model["opts"]), model["payload"])
+
+    def observe(self, st, how):
+        I = self.I
+        if how == "==":
+            # Options.__eq__ is allowed to serialise; its answer is not what is decided here
+            I.compare(ast.Eq(), I.getattr(st["m"], "opt"), self.parse(st["model"]["opts"]))
+            return None
+        return bytes(self.call(st["m"], "encode"))
+
+    # -- the paths through which a field changes
+    def _other_raw(self, model, num):
+        cur = next(raw for n, raw in model["opts"] if n == num)
+        return next(r for r in HIST_RAWS if r != cur)
+
+    def _first_obj(self, st, num):
+        return next(x for x in self.objs(self.I.getattr(st["m"], "opt")) if int(self.I.getattr(x, "number")) == num)
+
+    @staticmethod
+    def _replace_first(model, num, raw):
+        i = next(i for i, (n, _r) in enumerate(model["opts"]) if n == num)
+        model["opts"] = model["opts"][:i] + [(num, raw)] + model["opts"][i + 1:]
+
+    def core_steps(self):
+        I = self.I
+        steps = []
+
+        def attr(name, new_model, to_value=lambda v: v):
+            def fn(st):
+                v = new_model(st["model"])
+                I.setattr(st["m"], name, to_value(v))
+                st["model"][name] = v
+            steps.append(Step("%s assigned" % name, "attr", fn))
+        attr("mid", lambda mo: (mo["mid"] + 0x1111) & 0xFFFF)
+        attr("token", lambda mo: mo["token"] + b"\x5a" if len(mo["token"]) < 8 else b"")
+        attr("payload", lambda mo: b"" if mo["payload"] else b"again")
+        attr("payload", lambda mo: mo["payload"] + b"+")
+        attr("mtype", lambda mo: (mo["mtype"] + 1) % 4, lambda v: I.call(self.Type, [v], {}))
+        attr("code", lambda mo: (mo["code"] + 64) % 256, lambda v: I.call(self.Code, [v], {}))
+
+        def add_new(st):
+            num = max(n for n, _r in st["model"]["opts"]) + 7
+            self.call(I.getattr(st["m"], "opt"), "add_option", self.new_option(num, HIST_RAWS[1]))
+            st["model"]["opts"] = st["model"]["opts"] + [(num, HIST_RAWS[1])]
+        steps.append(Step("add_option (new number)", "set", add_new))
+
+        def add_same(st):
+            num = st["model"]["opts"][-1][0]
+            self.call(I.getattr(st["m"], "opt"), "add_option", self.new_option(num, HIST_RAWS[2]))
+            st["model"]["opts"] = st["model"]["opts"] + [(num, HIST_RAWS[2])]
+        steps.append(Step("add_option (number already present)", "set", add_same))
+
+        def delete(st):
+            num = st["model"]["opts"][0][0]
+            self.call(I.getattr(st["m"], "opt"), "delete_option", I.call(self.ON, [num], {}))
+            st["model"]["opts"] = [(n, r) for n, r in st["model"]["opts"] if n != num]
+        steps.append(Step("delete_option", "set", delete))
+
+        def decode_more(st):
+            more = [(2, b"\x01"), (self.formats[0][0], HIST_RAWS[1])]
+            self.call(I.getattr(st["m"], "opt"), "decode", ref_options(more))
+            st["model"]["opts"] = st["model"]["opts"] + sorted(more)
+        steps.append(Step("Options.decode into the same object", "set", decode_more))
+
+        def replace_opt(st):
+            new = st["model"]["opts"][1:] + [(self.formats[0][0], HIST_RAWS[2])]
+            I.setattr(st["m"], "opt", self.parse(new))
+            st["model"]["opts"] = new
+        steps.append(Step("opt assigned (another option set)", "set", replace_opt))
+
+        for num, fmt in self.formats:
+            def set_value(st, num=num):
+                if not any(n == num for n, _r in st["model"]["opts"]):
+                    return
+                raw = self._other_raw(st["model"], num)
+                I.setattr(self._first_obj(st, num), "value", I.getattr(self.new_option(num, raw), "value"))
+                self._replace_first(st["model"], num, raw)
+            steps.append(Step("%s: option object's .value assigned" % fmt, "value:" + fmt, set_value))
+
+            def decode_value(st, num=num):
+                if not any(n == num for n, _r in st["model"]["opts"]):
+                    return
+                raw = self._other_raw(st["model"], num)
+                self.call(self._first_obj(st, num), "decode", raw)
+                self._replace_first(st["model"], num, raw)
+            steps.append(Step("%s: option object's decode() called" % fmt, "value:" + fmt, decode_value))
+        return steps
+
+    def copy_steps(self):
+        I = self.I
+
+        def plain(st):
+            st["m"] = self.call(st["m"], "copy")
+            st["model"] = dict(st["model"])
+
+        def overrides(st):
+            mo = dict(st["model"])
+            mo["mid"] = (mo["mid"] + 0x0202) & 0xFFFF
+            mo["payload"] = mo["payload"] + b"/copy"
+            st["m"] = self.call(st["m"], "copy", mid=mo["mid"], payload=mo["payload"])
+            st["model"] = mo
+        return [Step("copy()", "copy", plain), Step("copy(mid=.., payload=..)", "copy", overrides)]
+
+    def views(self):
+        """[(property name of Options, option number it exposes)]: found by evaluation, not by name"""
+        I = self.I
+        ns = I.class_ns(self.Options.qn)
+        props = sorted(k for k, v in ns.items() if isinstance(v, K.Property) and v.fget is not None and v.fset is not None)
+        empty = I.call(self.Options, [], {})
+        out, skipped = [], []
+        for name in props:
+            try:
+                base = K.attempt(I, lambda: I.getattr(empty, name))
+                if not base.ok:
+                    skipped.append(name)
+                    continue
+                for num in self.registered:
+                    got = K.attempt(I, lambda: I.getattr(self.parse([(num, HIST_RAWS[0])]), name))
+                    if got.ok and not (got.value is base.value or I.truth(I.equals(got.value, base.value))):
+                        out.append((name, num))
+            except K.Unsupported as e:
+                skipped.append("%s (%s)" % (name, e))
+        if skipped:
+            self.ctx.note("properties of Options not driven through a history: %s" % ", ".join(skipped))
+        return out
+
+    def view_history(self, name, num, observe):
+        """encode, assign through the view what the view shows on another option set, encode (then, where the property has
+        a deleter, delete through it and encode once more): each of these serialisations
+        is the reference encoding of the options the object now holds, each read through option_list() and serialised by
+        its own encode() (both decided by clauses d and e).  The model is not used here: what a view's setter stores for
+        a value (a presence view stores an empty option) is the view's business."""
+        I = self.I
+        st = self.build()
+        opt = I.getattr(st["m"], "opt")
+        self.observe(st, observe)
+        src = self.parse([(num, HIST_RAWS[1])])
+        I.setattr(opt, name, I.getattr(src, name))
+
+        def readback():
+            return [(int(I.getattr(x, "number")), bytes(self.call(x, "encode"))) for x in self.objs(opt)]
+        now = readback()
+        changed = now != sorted(st["model"]["opts"], key=lambda o: o[0])
+        out = [(bytes(self.call(st["m"], "encode")), self.want(dict(st["model"], opts=now)))]
+        if I.class_ns(self.Options.qn)[name].fdel is not None:
+            I.delattr(opt, name)
+            then = readback()
+            changed = changed and then != now
+            out.append((bytes(self.call(st["m"], "encode")), self.want(dict(st["model"], opts=then))))
+        return out, changed
+
+    def run(self, steps, observe="encode"):
+        """-> [(history text, got, want, family of the last step)]"""
+        rows = []
+        st = self.build()
+        text = "new message"
+        first = self.observe(st, observe)
+        if first is not None:
+            rows.append((text + "; encode()", first.hex(), self.want(st["model"]).hex(), None))
+        else:
+            text += "; opt == other"
+        for s in steps:
+            text += "; " + s.label
+            r = K.attempt(self.I, lambda: (s.fn(st), self.observe(st, "encode"))[1])
+            rows.append((text + "; encode()", r.value.hex() if r.ok else r.describe(), self.want(st["model"]).hex(), s.family))
+            if not r.ok:
+                break
+        return rows
+
+
+HIST_FAMILIES = (
+    ("attr", "message.Message.encode", "a message attribute (type, code, message ID, token, payload) assigned after a serialisation is what the next serialisation carries", "history: message attribute assigned"),
+    ("set", "options.Options.encode", "options added, removed or parsed into the option set after a serialisation are what the next serialisation carries", "history: option set changed"),
+    ("value", "options.Options.encode", "an option value updated in place through the option object (.value, decode()) after a serialisation is what the next serialisation carries", "history: option value updated in place"),
+    ("view", "options.Options.encode", "an option assigned through a property of Options after a serialisation is what the next serialisation carries", "history: option assigned through a view"),
+    ("copy", "message.Message.copy", "a copy of a message that was serialised before serialises its own current fields", "history: copy of a serialised message"),
+)
+
+
+def history_obligations(ctx, rows, tag=""):
+    """rows: [(text, got, want, family)]; one obligation per family of paths (per value format for in-place updates)"""
+    n = {}
+    for fam, anchor, desc, key in HIST_FAMILIES:
+        fi = ctx.prog.func(anchor)
+        mine = [r for r in rows if r[3] is not None and r[3].split(":")[0] == fam]
+        groups = {}
+        for r in mine:
+            groups.setdefault(r[3], []).append(r)
+        for g, rs in sorted(groups.items()):
+            sub = g.split(":", 1)[1] if ":" in g else None
+            df = first_diff([(t, got, want) for t, got, want, _f in rs])
+            ctx.ob(desc + (" (%s)" % sub if sub else "") + tag, df is None, fi, fi.node, construct=key + (" (%s)" % sub if sub else ""), detail=df)
+        n[fam] = len(mine)
+    return n
+
+
+def history_rows(ctx, H, pairs):
+    """singles: every path after an encode() and after an `==`; pairs: ordered pairs of paths (every pair with a copy
+    in it; all pairs of the core paths when pairs == 'all')"""
+    rows = []
+    core, copies = H.core_steps(), H.copy_steps()
+    fresh = None
+    for s in core + copies:
+        for obs in ("encode", "=="):
+            rs = H.run([s], obs)
+            if rs and rs[0][3] is None:
+                fresh = fresh or rs[0]
+            rows.extend(r for r in rs if r[3] is not None)
+    for c_ in copies:
+        for s in core + copies:
+            # the family of a history with a copy in it is the copy's: that is where a carried-along serialisation lives
+            rows.extend((t, g, w, "copy") for t, g, w, f_ in H.run([c_, s]) if f_ is not None)
+            rows.extend((t, g, w, "copy") for t, g, w, f_ in H.run([s, c_]) if f_ is not None)
+    if pairs == "all":
+        for s1 in core:
+            for s2 in core:
+                rows.extend(r for r in H.run([s1, s2]) if r[3] is not None)
+    return rows, fresh
+
+
+@R.clause("C01.i", "serialisation is a function of the message's current fields: after any earlier serialisation, comparison or copy, and whichever documented path changed a field since, encode() gives the RFC 7252 bytes of the fields the message has now")
+def i_histories(ctx):
+    H = Histories(ctx)
+    enc = ctx.prog.func("message.Message.encode")
+    rows, fresh = history_rows(ctx, H, pairs="copy")
+    ctx.need(fresh is not None, "no history produced a first serialisation")
+    ctx.ob("a newly built message with one option of every value format serialises to the reference encoding", fresh[1] == fresh[2], enc, enc.node, construct="history: new message",
+           detail=first_diff([fresh[:3]]))
+    # the properties of Options
+    vrows = []
+    views = H.views()
+    for name, num in views:
+        for obs in ("encode", "=="):
+            r = K.attempt(H.I, lambda: H.view_history(name, num, obs))
+            text = "new message; %s; opt.%s = <what the view shows for option %d with value %s>; encode()" % ("encode()" if obs == "encode" else "opt == other", name, num, HIST_RAWS[1].hex())
+            if not r.ok:
+                vrows.append((text, r.describe(), "serialised", "view"))
+                continue
+            pairs, changed = r.value
+            ctx.need(changed, "assigning / deleting through Options.%s did not change the options read back through option_list()" % name)
+            for k, (got, want) in enumerate(pairs):
+                vrows.append((text + ("; del opt.%s; encode()" % name if k else ""), got.hex(), want.hex(), "view"))
+    ctx.floor("properties of Options that expose an option", len(views), 20)
+    n = history_obligations(ctx, rows + vrows)
+    ctx.floor("histories evaluated", sum(n.values()), 150)
+
+
+@R.clause("C01.i", "histories: every ordered pair of field-changing paths", tier="thorough")
+def i_thorough(ctx):
+    H = Histories(ctx)
+    rows, _fresh = history_rows(ctx, H, pairs="all")
+    history_obligations(ctx, rows, tag=" (all ordered pairs of paths)")
+
+
 
 # ---------------------------------------------------------------------------
 # seeds
@@ -1592,3 +1936,7 @@ R.seed("C01.d", F_O, "            if rawdata[0] == 0xFF:\n                return
 R.seed("C01.e", F_T, "        self.value = int.from_bytes(rawdata, \"big\")", "        self.value = int.from_bytes(rawdata, \"little\")", "uint option read little endian")
 R.seed("C01.a", F_O, "            except UnicodeDecodeError:\n                raise UnparsableMessage(\"Option value is not valid UTF-8\")", "            except UnicodeEncodeError:\n                raise UnparsableMessage(\"Option value is not valid UTF-8\")", "invalid UTF-8 in a string option escapes as UnicodeDecodeError")
 R.seed("C01.a", F_M, "        mtype = (vttkl & 0x30) >> 4", "        mtype = (vttkl & 0x70) >> 4", "type field read from three bits: Type(4..7) raises ValueError out of the parser")
+R.seed("C01.i", F_O, "            optiondata = option.encode()\n", "            optiondata = option.__dict__.setdefault(\"_wire\", option.encode())\n", "each option's bytes are remembered in the option object: a value updated in place (or on a copy) never reaches the wire")
+R.seed("C01.i", F_T, "        return _to_minimum_bytes(as_integer)", "        return self.__dict__.setdefault(\"_wire\", _to_minimum_bytes(as_integer))", "Block option remembers its first serialisation: the next block number is sent as the previous one")
+R.seed("C01.i", F_M, "        rawdata += self.opt.encode()\n", "        rawdata += self.__dict__.setdefault(\"_optbytes\", self.opt.encode())\n", "the option bytes are remembered in the message: options added or removed after the first serialisation are not sent")
+R.seed("C01.i", F_M, "        rawdata += struct.pack(\"!BH\", self.code, self.mid)", "        rawdata += self.__dict__.setdefault(\"_codemid\", struct.pack(\"!BH\", self.code, self.mid))", "code and message ID are remembered: a message re-sent under a new message ID goes out with the old one")
